@@ -87,6 +87,10 @@ func (x *Exec) callStatic(fn *ssa.Function, args []Value, bind []Value, c *ssa.C
 		x.Summ[name]++
 		return in(x, &CallCtx{Fn: fn, Args: args, Common: c, Instr: x.curInstr, Caller: x.curCaller})
 	}
+	if x.localSumm[name] {
+		x.Summ["uf-summary:"+name]++
+		return x.ufSummaryCall(fn, args)
+	}
 	if (x.P.MergeFns[name] || x.localMerge[name]) && !x.Cfg.NoMerge && !x.noMerge {
 		x.Summ["merged:"+name]++
 		return x.mergeCall(fn, args, bind)
